@@ -9,7 +9,9 @@ CLAIMS = {
                 "bound) mod n + 1, the acceptance bound is a multiple of n so every face has exactly the same number of "
                 "accepted words (no modulo bias), results lie in 1..n, and successive dice consume disjoint stream segments. "
                 "The model is tied to roll_func.go on every run by the roll stream with first words forced onto every boundary "
-                "of the acceptance rule and forced rejections.",
+                "of the acceptance rule and forced rejections. Through the VM: lists of single dice (some clamped) from a seed equal the model's "
+                "Roll chained over the generator state (the clamp of one term is not the next one's), and the seed an unseeded context reports "
+                "replays its dice.",
         "note": TB + "PCG-128's statistical quality is trusted (its step/output function is modelled exactly and tied by the "
                      "rng stream). _roll32 is dead code on 64-bit builds and not modelled.",
         "technique": "Lean 4 theorems on an executable model of _roll64/Roll + differential correspondence stream",
@@ -44,7 +46,8 @@ CLAIMS = {
                 "of live keys. The model is tied to valuemap.go by the vmap stream, which compares every return value AND "
                 "the internal shape (read/dirty membership, entry state, amended, misses) after every operation of every "
                 "length-4 history (thorough: 5) plus random long ones. Concurrency clause: validated, not proved — recorded "
-                "concurrent histories from goroutines are checked for linearizability (porcupine) and quiescent contents.",
+                "concurrent histories from goroutines are checked for linearizability (porcupine) and quiescent contents; "
+                "Length under a concurrent writer with forced promotions lies between the stores completed and the stores started.",
         "note": TB + "Linearizability under concurrency and data races are outside the sequential theorems; the concurrent run "
                      "is supporting validation only. Hook: VerifValueMapShape (build tag verif).",
         "technique": "Lean 4 refinement proof (invariant + induction over histories) + shape-level differential stream + porcupine",
@@ -58,7 +61,8 @@ CLAIMS = {
                 "function/computed sub-VMs inherit the generator unconditionally, Init seeds from Seed. Tie: rng stream. "
                 "Search on the implementation: replay-twice under unrelated global/foreign activity, resume through "
                 "GetCurSeed, re-seeding a used context — over every dice family, random array methods, nested functions, "
-                "computed values.",
+                "computed values (also ones whose text assigns names; the foreign activity assigns per-case names); the second evaluation of a "
+                "program parsed once ≡ a fresh context resumed from the reported seed (value, process text, Matched, seed).",
         "note": TB + "VM-level determinism (same program, same seed => same outcome) is validated by the replay oracle, not yet "
                      "proved on a VM model. Translator harness/extract is trusted for RngSites; a wrong extraction shows up as "
                      "a failing replay.",
@@ -74,7 +78,8 @@ CLAIMS = {
                 "newline-separated segment when <= 60 bytes. Tie: errfmt stream compares the complete error text of every "
                 "rejected generated input in the three languages with the Lean model of read + formatFriendlyError + fmtErr "
                 "+ getLineAtBytes (incl. invalid UTF-8, NUL, multi-line, multi-byte). Oracle on the implementation recomputes "
-                "line/column/quote/caret from the reported offset and checks the language.",
+                "line/column/quote/caret from the reported offset and checks the language — the context's own, whatever the package-level setter "
+                "was given and whatever the context reported earlier.",
         "note": TB + "Which offset the packrat engine reports (maxFailPos) is taken from the implementation until the PEG engine "
                      "is modelled; concurrent language isolation is decided under C11.",
         "technique": "Lean 4 invariant proof over the engine's read() + byte-exact differential stream of error texts",
@@ -320,7 +325,9 @@ CLAIMS = {
                 "containers by reference, dice under min/max mode) is compared by the ref stream with the real parser+VM on generated "
                 "trees printed by an independent printer that follows the published grammar's precedence levels with random legal "
                 "whitespace and redundant parentheses, in sequences of 1-3 programs on one VM (value / error-ness per program, "
-                "variables after the sequence). Eight parser/compiler defects found this way were repaired.",
+                "variables after the sequence); line breaks and trailing comments separate statements after every kind of statement. The text form "
+                "of float values (toStr, template holes, container printing) is judged against the shortest positional decimal of the value's bits. "
+                "Nine parser/compiler defects found this way were repaired.",
         "note": TB + "The theorems cover expressions, variables bound to plain values, assignments, statement sequences and conditionals; loops, functions, computed values, templates and containers are decided by the ref stream against the definitional semantics (a partial def, "
                      "executable, not a proof object). Primitive operator tables are shared between the definitional semantics and "
                      "the VM model (they are C01's totality theorems' and the vm stream's subject). The printer is the statement of "
